@@ -913,7 +913,26 @@ def fn_cmp(op: str, lhs: Rat, rhs: Rat) -> Rat:
     return Rat.fn('cmp' + op, d)
 
 
+def _single_atom(r: Rat):
+    if r.den is ONE_P and len(r.num) == 1:
+        (m, c), = r.num.items()
+        if c == 1 and len(m) == 1 and m[0][1] == 1:
+            return A(m[0][0])
+    return None
+
+
+def fn_not(c: Rat) -> Rat:
+    a = _single_atom(c)
+    if a is not None and a.kind == 'fn' and a.name == 'not':
+        return a.args[0]  # double negation
+    return Rat.fn('not', c)
+
+
 def fn_where(c: Rat, a: Rat, b: Rat) -> Rat:
+    # where(~c, a, b) is where(c, b, a) exactly
+    at = _single_atom(c)
+    if at is not None and at.kind == 'fn' and at.name == 'not':
+        return fn_where(at.args[0], b, a)
     return Rat.fn('where', c, a, b)
 
 
